@@ -59,12 +59,13 @@ type histScn struct {
 	ops                          []histOp
 	script                       []histAct
 	end                          int64
+	lp                           bool // a ResumeEvent listener has another goroutine call Pause() and waits for it
 }
 
 func (s histScn) key() string {
 	var sb strings.Builder
-	fmt.Fprintf(&sb, "hist gen=%d buf=%d lim=%d maxcap=%d cap=%d flush=%d capi=%d audit=%d mot=%d pause=%d eof=%d mcb=%d end=%d w=",
-		s.gen, s.buf, b01(s.lim), s.maxcap, s.cap0, s.flush, s.capi, s.audit, s.mot, s.pau, b01(s.eof), s.mcb, s.end)
+	fmt.Fprintf(&sb, "hist gen=%d buf=%d lim=%d maxcap=%d cap=%d flush=%d capi=%d audit=%d mot=%d pause=%d eof=%d mcb=%d end=%d lp=%d w=",
+		s.gen, s.buf, b01(s.lim), s.maxcap, s.cap0, s.flush, s.capi, s.audit, s.mot, s.pau, b01(s.eof), s.mcb, s.end, b01(s.lp))
 	for i, w := range s.ws {
 		if i > 0 {
 			sb.WriteByte(';')
@@ -102,7 +103,7 @@ func histFromKV(kv map[string]string) histScn {
 	i64 := func(k string) int64 { n, _ := strconv.ParseInt(kv[k], 10, 64); return n }
 	s := histScn{gen: atoi(kv["gen"]), buf: atou(kv["buf"]), lim: kv["lim"] == "1", maxcap: atou(kv["maxcap"]), cap0: atou(kv["cap"]),
 		flush: i64("flush"), capi: i64("capi"), audit: i64("audit"), mot: i64("mot"), pau: i64("pause"), eof: kv["eof"] == "1",
-		mcb: atoi(kv["mcb"]), end: i64("end")}
+		mcb: atoi(kv["mcb"]), end: i64("end"), lp: kv["lp"] == "1"}
 	split := func(v string) []string {
 		if v == "" || v == "-" {
 			return nil
@@ -244,12 +245,20 @@ func plusU(xs []uint32) string {
 }
 
 func runHist(s histScn) (line string) {
+	lg := &histLog{}
 	defer func() {
 		if p := recover(); p != nil {
-			line = s.key() + " | panic=" + strings.ReplaceAll(fmt.Sprint(p), " ", "_")
+			msg := strings.ReplaceAll(fmt.Sprint(p), " ", "_")
+			lg.mu.Lock()
+			defer lg.mu.Unlock()
+			if strings.Contains(msg, "blocked_goroutines_remain") {
+				// the history itself was recorded; what failed is the clean-up: some library goroutine is blocked for good
+				line = s.key() + " | leak=" + msg + " tr=" + dash(strings.Join(lg.entries, ";"))
+			} else {
+				line = s.key() + " | panic=" + msg
+			}
 		}
 	}()
-	lg := &histLog{}
 	synctestRun(func() {
 		lg.start = time.Now()
 		c := bcfg{gen: s.gen, buf: s.buf, flush: time.Duration(s.flush), capInt: time.Duration(s.capi), audit: time.Duration(s.audit),
@@ -341,6 +350,7 @@ func runHist(s histScn) (line string) {
 		for i, o := range s.ops {
 			f.newOp(i, o.w, o.cost, o.batchable)
 		}
+		lpLeft := 2
 		f.listen(func(event string, val int, msg string, objs []int) {
 			switch event {
 			case "batch":
@@ -355,6 +365,13 @@ func runHist(s histScn) (line string) {
 				lg.add("ev:audit-fail:%s", kind)
 			default:
 				lg.add("ev:%s:%d", event, val)
+			}
+			if event == "resume" && s.lp && lpLeft > 0 {
+				// another goroutine pauses again while the resume event is still being delivered
+				lpLeft--
+				done := make(chan struct{})
+				go func() { lg.add("act:P"); f.pause(); close(done) }()
+				<-done
 			}
 		})
 		holds := map[int]chan struct{}{}
@@ -582,6 +599,7 @@ func histRandom(r *rng, profile string) histScn {
 		s.script = append(s.script, histAct{t: t, act: act})
 	}
 	s.end = t + int64(r.pick(50, 400, 1200, 3000))*ms
+	s.lp = r.chance(1, 10)
 	// probes around the write-off instants: batches are raised at flush ticks, so sample at tick + MaxOperationTime -1ns/0/+1ns
 	if started && r.chance(1, 2) {
 		for j := 0; j < 3; j++ {
